@@ -374,7 +374,8 @@ def run(prog: Program, chk: Check):
     # ---- D delivery to the others continues ---------------------------------------------------------------------------
     D = chk.rule("C07-D", "a write-failure handler inside a recipient loop leaves the loop able to continue", 3,
                  "return/break/raise in the handler stops delivery to the remaining subscribers of that very message")
-    for f in (prog.func(MGR, "MessageManager.forward_message"), prog.func(MGR, "MessageManager.send_to_loggers")):
+    prog.func(MGR, "MessageManager.forward_message")  # anchor
+    for f in mm.methods.values():  # recipient loops live in forward_message and wherever the logger fan-out is written
         for t, tsends in conn_error_handlers(prog, ty, f):
             if not any(isinstance(a, (ast.For, ast.While)) for a in ancestors(t)):
                 continue
